@@ -272,6 +272,10 @@ where
     let main_panic = main_panic.lock().unwrap().take();
     let status = if let Some(m) = main_panic {
         Status::MainPanic(m)
+    } else if let Some(StopReason::Exit(c)) = &st.stop {
+        // the process is gone; whatever the engine noticed afterwards (e.g. that
+        // the consumer would have stayed blocked) is not observable
+        Status::Exit(*c)
     } else if let Some(d) = &st.deadlock {
         Status::Wedged(d.clone())
     } else {
